@@ -361,11 +361,12 @@ func (pp *PairPos) Sanitize() error {
 			return fmt.Errorf("GPOS: invalid PairPos1 sets count (%d > %d)", exp, got)
 		}
 	} else if f2, isFormat2 := pp.Data.(PairPosData2); isFormat2 {
-		if exp, got := classDefExtent(f2.ClassDef1), int(f2.class1Count); exp != got {
-			return fmt.Errorf("GPOS: invalid PairPos2 class1 count (%d != %d)", exp, got)
+		// the class definitions may leave some of the declared classes unused
+		if exp, got := classDefExtent(f2.ClassDef1), int(f2.class1Count); exp > got {
+			return fmt.Errorf("GPOS: invalid PairPos2 class1 count (%d > %d)", exp, got)
 		}
-		if exp, got := classDefExtent(f2.ClassDef2), int(f2.class2Count); exp != got {
-			return fmt.Errorf("GPOS: invalid PairPos2 class2 count (%d != %d)", exp, got)
+		if exp, got := classDefExtent(f2.ClassDef2), int(f2.class2Count); exp > got {
+			return fmt.Errorf("GPOS: invalid PairPos2 class2 count (%d > %d)", exp, got)
 		}
 	}
 	return nil
